@@ -134,6 +134,8 @@ pub mod easy {
         follow_location: bool,
         fail_on_error: bool,
         max_filesize: Option<u64>,
+        /// Request headers set with `http_headers`.
+        headers: Vec<String>,
     }
 
     #[derive(Default)]
@@ -214,7 +216,8 @@ pub mod easy {
         pub fn get(&mut self, _v: bool) -> Result<(), Error> {
             Ok(())
         }
-        pub fn http_headers(&mut self, _l: List) -> Result<(), Error> {
+        pub fn http_headers(&mut self, l: List) -> Result<(), Error> {
+            self.opts.headers = l.items;
             Ok(())
         }
         pub fn accept_encoding(&mut self, _e: &str) -> Result<(), Error> {
@@ -412,7 +415,30 @@ pub mod easy {
                 latency_ns,
                 max_chunk,
             } => {
-                let data: Vec<u8> = mach::with(|m| m.bodies.get(&body).cloned().unwrap_or_default());
+                let mut data: Vec<u8> = mach::with(|m| m.bodies.get(&body).cloned().unwrap_or_default());
+                // The simulated endpoint sends a validator with every 200 response and
+                // honours If-None-Match, as the real one (and any CDN in front of it)
+                // does: a client that claims to hold exactly this document is told 304
+                // with no body.
+                let etag = format!("\"doc-{}\"", body);
+                let revalidated = status == 200
+                    && opts.headers.iter().any(|h| {
+                        let mut it = h.splitn(2, ':');
+                        let name = it.next().unwrap_or("").trim();
+                        let value = it.next().unwrap_or("").trim();
+                        name.eq_ignore_ascii_case("if-none-match") && value == etag
+                    });
+                let status = if revalidated { 304 } else { status };
+                if revalidated {
+                    data.clear();
+                    mach::with(|m| {
+                        m.http.revalidated_304.push(body);
+                        // "What you have is this document": for what a refresh must
+                        // leave behind, as good as having been sent it.
+                        m.http.completed_200_bodies.push(body);
+                        m.stat("http_304_not_modified");
+                    });
+                }
                 // first byte
                 elapsed += latency_ns;
                 if let Some(t) = timeout_ns {
@@ -434,6 +460,12 @@ pub mod easy {
                     }
                     if has_len {
                         let line = format!("Content-Length: {}\r\n", data.len());
+                        if !h(line.as_bytes()) {
+                            return Err(Error::new(23));
+                        }
+                    }
+                    if status == 200 || status == 304 {
+                        let line = format!("ETag: {}\r\n", etag);
                         if !h(line.as_bytes()) {
                             return Err(Error::new(23));
                         }
